@@ -7,21 +7,25 @@ def _nonempty_inputs(line, verdict):
 PROPS = {}
 
 PROPS["C01"] = {
-    "modules": ["IbexProofs.Props.C01"],
+    "modules": ["IbexProofs.Props.C01", "IbexProofs.Props.C01vec"],
     "harnesses": ["h_itv", "h_elem"],
     "workloads": lambda tier, seed: [
         {"harness": "h_itv", "tag": "fwd", "args": ["c01", seed, 3000 if tier == "quick" else 60000] + (["full"] if tier == "thorough" else [])},
         {"harness": "h_elem", "tag": "elem", "args": ["c01elem", seed, 600 if tier == "quick" else 20000] + (["full"] if tier == "thorough" else [])},
+        {"harness": "h_itv", "tag": "vec", "args": ["c01vec", seed, 300 if tier == "quick" else 12000]},
     ],
     "nontrivial": _nonempty_inputs,
     "rule": "lattice of special endpoints (pairs sampled in quick, exhaustive in thorough) + random intervals; a case is "
-            "non-trivial when no argument is empty; distinct = distinct (operator, arguments) lines",
+            "non-trivial when no argument is empty; distinct = distinct (operator, arguments) lines; vec: IntervalVector / IntervalMatrix "
+            "operators (sum, difference, opposite, scaling, dot / outer / Hadamard products, matrix-vector, vector-matrix, matrix-matrix, "
+            "transposition, mixed real/interval operands, in-place variants) on dimensions 1-4 with bounded, degenerate, half-bounded and unbounded "
+            "entries: the result must contain, entry by entry, the exact interval result (= the range), rounding mode checked after every call",
     "assumptions": ["correspondence is sampled: impl result must contain the model's tightest outward-rounded hull on every generated input",
                     "MPFR (correct directed rounding at 53 bits) is the point oracle for elementary functions",
                     "gaol/libultim/libm point functions are NOT proved; they are tested against MPFR at sample points (end points included)"],
     "trusted": ["MPFR/GMP as oracle for elementary functions", "g++/x86-64 SSE2 IEEE-754 arithmetic"],
     "technique": "Lean 4 proof (enclosure theorems over R for the model's tightest hulls, monotone lifting) + differential correspondence impl >= model / MPFR point oracle",
-    "level_text": "Kernel-checked theorems: for + - * / neg sqr sqrt abs max min sign floor ceil integer pow(int) the model's outward-rounded hull contains the real result for every real point of every (possibly unbounded) argument interval, and is empty only outside the domain; accepted implementation results contain the model hull (checked on every generated input, lattice of special endpoints exhaustive in the thorough tier). Elementary functions: monotone lifting theorems + MPFR-rigorous point checks (end points, critical points, random). Vector/matrix operators: not yet in the model.",
+    "level_text": "Kernel-checked theorems: for + - * / neg sqr sqrt abs max min sign floor ceil integer pow(int) the model's outward-rounded hull contains the real result for every real point of every (possibly unbounded) argument interval, and is empty only outside the domain; accepted implementation results contain the model hull (checked on every generated input, lattice of special endpoints exhaustive in the thorough tier). Elementary functions: monotone lifting theorems + MPFR-rigorous point checks (end points, critical points, random). Vector/matrix operators: dotX_encl, mulOk_sound, mapOk2_sound, scaleOk_sound, transOk_sound (an accepted result contains the real result for all real arguments; the reference is exact interval arithmetic, i.e. the range).",
     "level_note": "Trusted: Lean kernel + Mathlib, axioms propext/Classical.choice/Quot.sound; harness, line protocol and driver glue; MPFR as oracle; the correspondence is sampled. Known finding: libm-based hyperbolic bounds off by <=2 floats (third-party gaol).",
 }
 
